@@ -46,6 +46,8 @@ def generate(prop, rng, index, tier):
         c = template["coords"][d]
         if c["dtype"].startswith("i"):
             c["values"] = [int(v) for v in c["values"]]
+        if rng.random() < 0.1:
+            c["absent"] = True         # a dimension without a coordinate variable (plain index dimension)
         if not c["packed"] and rng.random() < 0.25:
             # a coordinate variable that declares a fill value (what xarray writes for every float coordinate)
             c["fill"] = "nan" if c["dtype"].startswith("f") and rng.random() < 0.6 else -32768
@@ -154,6 +156,8 @@ def _make_template(path, t):
             ds.createDimension(d, n)
         for d, n in t["dims"]:
             c = t["coords"][d]
+            if c.get("absent"):
+                continue
             if c.get("packed"):
                 # a packed coordinate: int16 on disk, scale_factor / add_offset give the real values
                 v = ds.createVariable(d, "i2", (d,))
@@ -255,6 +259,12 @@ def execute(sc):
                 # ---- inspect the written dataset directly ---------------------------------------------------------
                 with Dataset(out) as ds, Dataset(tmpl) as ts:
                     for d, n in t["dims"]:
+                        if t["coords"][d].get("absent"):
+                            res.probe("template dimension without a coordinate variable")
+                            if d not in ds.dimensions or ds.dimensions[d].size != n:
+                                res.violate("C18.dims", "C18.dims dimension-not-copied", "dimension %s missing or resized" % d)
+                                return _finish(sc, res)
+                            continue
                         if d not in ds.dimensions or ds.dimensions[d].size != n or d not in ds.variables:
                             res.violate("C18.dims", "C18.dims dimension-not-copied", "dimension %s missing or resized" % d)
                             return _finish(sc, res)
@@ -356,6 +366,8 @@ def execute(sc):
                             union2 = [a or b for a, b in zip(union2, g["mask"])]
                         with Dataset(os.path.join(root, "out2.nc")) as ds2, Dataset(tmpl) as ts2:
                             for d, n in t2["dims"]:
+                                if t2["coords"][d].get("absent"):
+                                    continue
                                 a, b = ds2.variables[d], ts2.variables[d]
                                 if numpy.asarray(a[:]).tobytes() != numpy.asarray(b[:]).tobytes() or \
                                         _attrs(a) != _attrs(b):
